@@ -102,6 +102,17 @@ def facts_for(patch, bkey):
     if os.path.exists(os.path.join(d, "DONE")):
         return d, None
     os.makedirs(ROOT, exist_ok=True)
+    # two checks running side by side may want the same patch: one extracts, the other waits and reuses
+    import fcntl
+    os.makedirs(os.path.join(harness.CACHE, "locks"), exist_ok=True)
+    with open(os.path.join(harness.CACHE, "locks", "regress-" + key), "w") as lk:
+        fcntl.flock(lk, fcntl.LOCK_EX)
+        if os.path.exists(os.path.join(d, "DONE")):
+            return d, None
+        return _extract_patch_facts(patch, d)
+
+
+def _extract_patch_facts(patch, d):
     shutil.rmtree(d, ignore_errors=True)
     os.makedirs(d)
     scratch = tempfile.mkdtemp(prefix="verif-selftest-")
